@@ -33,8 +33,8 @@ RULE = (
     "shifted, shuffled, string and duplicated row labels. Model isotherms: every one of the 16 models from a model "
     "instance with drawn parameters / ranges / rmse and 11 models by fitting generated data (arrays or frame, ads or des "
     "branch). Each case: export to a string (and for 1/3 of the cases to a file given as str or pathlib.Path), import, "
-    "compare with a snapshot of the original taken BEFORE the export: class, iso_id and ==, to_dict() with recursive type "
-    "identity, unit labels, adsorbate, material name and properties, every data column exactly (values bit-for-bit via "
+    "compare with a snapshot of the original taken BEFORE the export: class, iso_id and ==, to_dict() and the metadata "
+    "dict (.properties) with recursive type identity, unit labels, adsorbate, material name and properties, every data column exactly (values bit-for-bit via "
     "==, dtype; branch marks as integers and a numeric branch dtype), model class/name/parameters/ranges/rmse and 8+8 "
     "pointwise loading_at / pressure_at predictions (identical outcome incl. identical refusals), re-export == first "
     "document, file text == string and the isotherm read from the file identical to the one read from the string. All "
@@ -822,10 +822,10 @@ def kf_dr_da_minus_rt(check_name, desc, viol):
 
 
 CHECKS = [
-    Check("base", check_base, strategy=strat_base, budget={"quick": 3000, "thorough": 40000},
+    Check("base", check_base, strategy=strat_base, budget={"quick": 2400, "thorough": 40000},
           rule="metadata-only isotherms: rich recursive metadata, material as name/dict/object, all unit configurations"),
-    Check("point", check_point, strategy=point_strategy, budget={"quick": 3000, "thorough": 40000},
+    Check("point", check_point, strategy=point_strategy, budget={"quick": 2400, "thorough": 40000},
           rule="point isotherms: 1-60 rows, all branch assignments, extra columns, custom keys, row labels"),
-    Check("model", check_model, strategy=model_strategy, budget={"quick": 1600, "thorough": 16000}, shrink_quick=False,
+    Check("model", check_model, strategy=model_strategy, budget={"quick": 1200, "thorough": 16000}, shrink_quick=False,
           rule="all 16 models from an instance, 11 models fitted; name, parameters, ranges, rmse, 16 predictions"),
 ]
